@@ -92,15 +92,8 @@ def report(chk, fx):
 
 
 def _get_index(f, getcall):
-    """The I of std::get<I>(...) from the resolved callee's full name."""
-    t = f.facts.T(getcall["callee"]["t"])
-    # type of std::get<I, Types...>: 'const std::tuple_element<I, ...>::type &(const tuple<...> &)'
-    import re
-    m = re.search(r"tuple_element<(\d+)", t)
-    if m:
-        return int(m.group(1))
-    rt = f.facts.T(getcall.get("t"))
-    return None
+    """The I of std::get<I>(...) (first template argument of the resolved callee)."""
+    return _num(getcall["callee"].get("ta0"))
 
 
 def _const(n):
